@@ -228,6 +228,10 @@ def run(chk, prog):
                             (d_[0] in ('cmp', 'cmp2') and any('field:Story::recursive_continue_count' in x
                                                                 for x in d_[2:] if isinstance(x, frozenset))) or \
                             (d_[0] == 'is_ok' and any('Story::continue_single_step' in a for a in d_[1]))
+                    if not ok_ and at and 'field:Story::recursive_continue_count' in at:
+                        # `match self.recursive_continue_count { 1 => .., _ => .. }` switches on the field itself
+                        ok_ = all(a in ('arg:1', 'field:Story::recursive_continue_count') or a.startswith(('via:', 'op:'))
+                                  for a in at)
                     if not ok_:
                         ok_ = bool(at) and all(a.startswith('const:') or 'Story::continue_single_step' in a
                                                or 'Story::can_continue' in a or a.startswith(('field:Result', 'field:Option',
